@@ -608,6 +608,111 @@ def write_updater(wntr):
     return i
 
 
+class _Val:
+    def __init__(self, v):
+        self.value = v
+
+
+class _SymDict(dict):
+    """m.flow / m.head / ...: every entry a symbolic number named `<dict>[<key>]`"""
+
+    def __init__(self, name):
+        super().__init__()
+        self._name = name
+
+    def __missing__(self, key):
+        v = _Val(SymF.leaf("%s[%s]" % (self._name, key), 1.0 + 0.01 * len(self)))
+        self[key] = v
+        return v
+
+
+def build_store_net(wntr, mode):
+    """a small REAL network for the symbolic execution of store_results_in_network: junctions (leak on / off / isolated with the leak
+    still on), two tanks (leak on / off) and two reservoirs, links of every end-node combination incl. tank-tank and
+    reservoir-reservoir, parallel links, an isolated link, a valve"""
+    wn = wntr.network.WaterNetworkModel()
+    wn.options.hydraulic.demand_model = mode
+    for j in ("J", "Jn", "Jiso"):
+        wn.add_junction(j, base_demand=0.001, elevation=1.0)
+    wn.add_tank("T1", elevation=10.0, init_level=3.0, min_level=0.0, max_level=9.0, diameter=5.0)
+    wn.add_tank("T2", elevation=12.0, init_level=3.0, min_level=0.0, max_level=9.0, diameter=5.0)
+    wn.add_reservoir("R1", base_head=40.0)
+    wn.add_reservoir("R2", base_head=30.0)
+    for name, a, b in (("L1", "J", "T1"), ("L2", "T1", "T2"), ("L2b", "T1", "T2"), ("L2r", "T2", "T1"), ("L3", "T2", "J"), ("L4", "R1", "R2"),
+                       ("L4r", "R2", "R1"), ("L5", "R1", "J"), ("L6", "T1", "R1"), ("L7", "Jn", "J"), ("Liso", "Jiso", "J"), ("LisoT", "Jiso", "T2")):
+        wn.add_pipe(name, a, b)
+    wn.add_valve("V", "J", "Jn", diameter=0.2, valve_type="TCV", minor_loss=1.0, initial_setting=5.0)
+    wn.add_curve("c", "HEAD", [(0.05, 30.0)])
+    wn.add_pump("PU", "T2", "T1", "HEAD", "c")
+    wn.reset_initial_values()
+    for n in ("J", "Jiso", "T1"):
+        wn.get_node(n).add_leak(wn, area=1e-4, start_time=None)
+        wn.get_node(n)._leak_status = True
+    wn.get_node("Jiso")._is_isolated = True
+    wn.get_link("Liso")._is_isolated = True
+    wn.get_link("LisoT")._is_isolated = True
+    return wn
+
+
+def gen_store(wntr):
+    """symbolic execution of the REAL wntr.sim.hydraulics.store_results_in_network on `build_store_net` with a model whose variable
+    and parameter values are symbolic numbers -> Gen/StoreC01.lean (what every node's _demand / _leak_demand and every link's _flow
+    are computed from)"""
+    import types
+
+    out = [
+        "-- GENERATED by harness/translate/rows_c01c02.py (symbolic execution of store_results_in_network). Do not edit.",
+        "import WntrModel.Model.LinkRows",
+        "namespace Wntr.Gen.StoreC01",
+        "open Wntr.Aml Wntr.LinkRows",
+        "",
+    ]
+    info = {}
+    for mode in ("DD", "PDD"):
+        wn = build_store_net(wntr, mode)
+        m = types.SimpleNamespace(flow=_SymDict("flow"), valve_setting=_SymDict("valve_setting"), head=_SymDict("head"), demand=_SymDict("demand"),
+                                  expected_demand=_SymDict("expected_demand"), leak_rate=_SymDict("leak_rate"))
+        wntr.sim.hydraulics.store_results_in_network(wn, m)
+        trees = {}
+        for n, nd in wn.nodes():
+            trees[("d", n)] = tree_of(nd._demand)
+            trees[("l", n)] = tree_of(nd._leak_demand)
+        for ln, l in wn.links():
+            trees[("f", ln)] = tree_of(l._flow)
+        vs, ps, idx = _index(list(trees.values()))
+        if mode == "DD":
+            out.append("def links : List ZLink := [")
+            out.append(",\n".join("  ⟨%s, %s, %s⟩" % (lean_str(n), lean_str(l.start_node_name), lean_str(l.end_node_name)) for n, l in wn.links()))
+            out.append("]")
+            out.append("def isolatedLinks : List String := " + _strlist([n for n, l in wn.links() if l._is_isolated]))
+            out.append("")
+        out.append("namespace %s" % mode)
+        out.append("def leafNames : List String := " + _strlist(ps))
+        out.append("def nodes : List ZStored := [")
+        ents = []
+        for n, nd in wn.nodes():
+            kind = {"Junction": "junction", "Tank": "tank", "Reservoir": "reservoir"}[nd.node_type]
+            ents.append("  { node := %s, kind := .%s, leakStatus := %s, isolated := %s,\n    demand := %s,\n    leakDemand := %s }"
+                        % (lean_str(n), kind, str(bool(getattr(nd, "leak_status", False))).lower(), str(bool(getattr(nd, "_is_isolated", False))).lower(),
+                           amldump.tree_to_lean(trees[("d", n)], idx), amldump.tree_to_lean(trees[("l", n)], idx)))
+        out.append(",\n".join(ents))
+        out.append("]")
+        out.append("def flows : List (String × Expr) := [")
+        out.append(",\n".join("  (%s, %s)" % (lean_str(ln), amldump.tree_to_lean(trees[("f", ln)], idx)) for ln, l in wn.links()))
+        out.append("]")
+        out.append("end %s" % mode)
+        out.append("")
+        info[mode] = len(ents)
+    out.append("end Wntr.Gen.StoreC01")
+    return "\n".join(out) + "\n", info
+
+
+def write_store(wntr):
+    t, i = gen_store(wntr)
+    vlib.write_if_changed(os.path.join(vlib.GEN, "StoreC01.lean"), t)
+    return i
+
+
 def write_c01(wntr):
     t1, i1 = gen_c01(wntr)
     vlib.write_if_changed(os.path.join(vlib.GEN, "RowsC01.lean"), t1)
@@ -622,11 +727,11 @@ def write_c02(wntr):
 
 def run(ctx=None):
     wntr = vlib.import_wntr()
-    return write_c01(wntr), write_c02(wntr), write_updater(wntr)
+    return write_c01(wntr), write_c02(wntr), write_updater(wntr), write_store(wntr)
 
 
 if __name__ == "__main__":
-    i1, i2, i3 = run()
+    i1, i2, i3, i4 = run()
     print(i1)
     print(i2["hist"])
     print(i3)
